@@ -162,11 +162,35 @@ def malformed_tm(rng, k):
 
 
 def gen_tiv(rng, n):
+    """interval generators g = 0..2 on one scheduler, independent stop tokens; op [c] = [c, 0]; c: 1 create, 2 call,
+    3 request_stop, 4 get_expired(far future)"""
     fixed = [[1, 2, 3, 4], [1, 2, 4, 2, 4, 3, 2], [1, 3, 2, 4], [1, 2, 3, 3, 4, 2], [2, 3, 1, 2, 3], [1, 1, 2, 2, 3, 4, 4],
              [1, 2, 4, 3, 4, 2], [3], [1, 2, 4, 2, 3, 4, 2], [1, 2, 5, 3]]
     out = [Case("tiv", "iv%d" % i, [[x] for x in f]) for i, f in enumerate(fixed)]
+    multi = [
+        # two generators asleep, stop one: only that one ends, the other keeps ticking
+        [[1, 0], [1, 1], [2, 0], [2, 1], [3, 0], [4], [2, 1], [4], [2, 0]],
+        [[1, 0], [1, 1], [2, 0], [2, 1], [3, 1], [4], [2, 0], [3, 0], [2, 1]],
+        # the later sleeper is stopped (its entry is not at the top: emptied in place), the earlier one expires normally
+        [[1, 0], [1, 1], [2, 1], [2, 0], [3, 0], [4], [4], [2, 1], [3, 1]],
+        # three generators, stop the middle one, then the first, the third keeps ticking
+        [[1, 0], [1, 1], [1, 2], [2, 0], [2, 1], [2, 2], [3, 1], [3, 0], [4], [2, 2], [4], [2, 2], [3, 2]],
+        # stop before the first call, with another generator asleep
+        [[1, 0], [1, 1], [2, 1], [3, 0], [2, 0], [4], [2, 1]],
+        # stop while yielded, other asleep
+        [[1, 0], [1, 1], [2, 0], [4], [2, 1], [3, 0], [2, 0], [4], [2, 1]],
+        [[1, 3], [2, -1], [1, 0, 0], [5, 0], [1, 2], [2, 2], [3, 2]],
+    ]
+    out += [Case("tiv", "ivm%d" % i, f) for i, f in enumerate(multi)]
     for i in range(n):
-        ops = [[1]] + [[rng.choice([2, 2, 3, 4, 4, 1])] for _ in range(rng.randint(1, 7))]
+        if i % 3 == 0:
+            ops = [[1]] + [[rng.choice([2, 2, 3, 4, 4, 1])] for _ in range(rng.randint(1, 7))]
+        else:
+            k = rng.choice([2, 3])
+            ops = [[1, g] for g in range(k)]
+            for _ in range(rng.randint(3, 12)):
+                c = rng.choice([2, 2, 2, 3, 4, 4])
+                ops.append([4] if c == 4 and rng.random() < 0.5 else [c, rng.randrange(k)])
         out.append(Case("tiv", "ivr%d" % i, ops))
     return out
 
@@ -200,6 +224,18 @@ def gen_tth(rng, n):
     # the same scenarios with the scheduler started in a thread_pool (worker_coro<true>)
     race += [Case("tth", "thp0", [[3, 0, 20], [3, 30000, 20], [3, 10, 40]]), Case("tth", "thp1", [[4, 0]]), Case("tth", "thp2", [[4, 30000]]),
              Case("tth", "thp3", [[3, rng.choice([0, 20000, 5]), rng.choice([10, 25, 40])] for _ in range(max(2, n))] + [[4, 60000], [4, 7], [3, 5]])]
+    # cancel while the worker is blocked on the first deadline (thread and pool flavour): the stale deadline must not
+    # complete a later sleeper early; fixed: cancel the top / a middle one / all but the last; random mixes
+    cb = [[5, 0, 1, 200, 650], [5, 1, 1, 200, 650], [5, 0, 2, 200, 400, 600], [5, 1, 5, 250, 450, 700], [5, 0, 3, 200, 400, 650]]
+    for _ in range(max(2, n)):
+        k = rng.randint(2, 4)
+        offs = []; t = 0
+        for _ in range(k):
+            t += rng.choice([200, 250, 300]); offs.append(t)
+        if t > 1000: offs = [200 * (i + 1) for i in range(k)]
+        cb.append([5, rng.choice([0, 1]), rng.randint(0, (1 << k) - 1)] + offs)
+    cb.append([5, 0, 1, 100, 400]); cb.append([5, 2, 1, 200, 400]); cb.append([5, 0, 4, 200, 400])     # rejected
+    race += [Case("tth", "thc%d" % i, [o]) for i, o in enumerate(cb)]
     return [Case("tth", "th0", ops[:3]), Case("tth", "th1", ops[3:] + [[1, 5]])] + race
 
 
@@ -240,7 +276,7 @@ def nontrivial(case, model_obs):
                 if len(a) > 4 + 2 * k and int(a[4 + 2 * k]) >= 3: big = 1
         return done > 0 and big > 0
     if case.engine == "tiv":
-        return [3] in case.ops and [2] in case.ops
+        return any(o and o[0] == 3 for o in case.ops) and any(o and o[0] == 2 for o in case.ops)
     if case.engine == "tst":
         return len(case.ops) >= 2 and any(l.split()[0] == "0" for l in model_obs if l)
     return any(l.split()[0] == "0" for l in model_obs if l)
